@@ -14,7 +14,7 @@ func init() { registry["C12"] = propC12 }
 func propC12() *Property {
 	return &Property{
 		ID:          "C12",
-		Explanation: "Structural clauses of link numbering. Decided: (R1) in every markup renderer each label printed by style.Link / style.LinkBlock is the length of the link list taken immediately after its own append — no call that can append to the same list lies between the append and the evaluation of len — and every append has exactly one label; (R2) label and lookup are inverse: attachments are labelled len(bodyLinks)+i+1 for slot i and SelectLink(k) reads attachments[k-1-len(bodyLinks)] and bodyLinks[k-1] (linear forms composed to the identity); body/bodyLinks and bio/bioLinks come from the same GetMarkup call; Activity delegates rendering and selection to the same target; (R3) every index in the SelectLink implementations is provably within 0..len-1 (numbers outside 1..N open nothing); (R4) Markdown returns the link list of its HTML rendering unchanged; (R7) every producer whose results are stored into a link list and its error field (attachments/attachmentsErr, bodyLinks/bodyErr, bioLinks/bioErr) returns an empty list whenever its error can be non-nil — the renderers print no numbers when the error is set, while SelectLink looks at the list only; (R6) style.superscript prints digit k as the Unicode superscript of k for all ten digits and emits the decimal digits of the number most significant first (strings.Map over the decimal representation, a loop over it that appends, or a divide-by-ten loop that prepends). NOT decided: that superscripts survive wrapping at every width and that link order is width-independent (string values).",
+		Explanation: "Structural clauses of link numbering. Decided: (R1) in every markup renderer each label printed by style.Link / style.LinkBlock is the length of the link list taken immediately after its own append — no call that can append to the same list lies between the append and the evaluation of len — and every append has exactly one label; (R2) label and lookup are inverse: attachments are labelled len(bodyLinks)+i+1 for slot i and SelectLink(k) reads attachments[k-1-len(bodyLinks)] and bodyLinks[k-1] (linear forms composed to the identity); body/bodyLinks and bio/bioLinks come from the same GetMarkup call; Activity delegates rendering and selection to the same target; (R3) every index in the SelectLink implementations is provably within 0..len-1 (numbers outside 1..N open nothing); (R4) Markdown returns the link list of its HTML rendering unchanged; (R7) every producer whose results are stored into a link list and its error field (attachments/attachmentsErr, bodyLinks/bodyErr, bioLinks/bioErr) returns an empty list whenever its error can be non-nil — the renderers print no numbers when the error is set, while SelectLink looks at the list only; (R6) style.superscript prints digit k as the Unicode superscript of k for all ten digits and emits the decimal digits of the number most significant first (strings.Map over the decimal representation, a loop over it that appends, or a divide-by-ten loop that prepends). (R1, addition) from every append to a link list every way to a return of that function passes the label call that shows its number: no target is listed on a path that shows no number. (R9) a link number is typed digit by digit: exactly the ten digits are taken, a digit outside selection mode starts from an empty buffer, the mode is selection afterwards. NOT decided: that superscripts survive wrapping at every width and that link order is width-independent (string values).",
 		Assumptions: []string{"len/append semantics of Go slices"},
 		Rules: []Rule{
 			{ID: "C12.R1", Title: "a link's label is taken at its own append", Floor: 6, Run: c12R1},
@@ -24,6 +24,7 @@ func propC12() *Property {
 			{ID: "C12.R5", Title: "which targets are numbered does not depend on the width", Floor: 3, Run: c12R5},
 			{ID: "C12.R6", Title: "the printed label shows the number: superscript digit table, most significant digit first", Floor: 2, Run: c12R6},
 			{ID: "C12.R7", Title: "a link list that comes with an error is empty: no link without a number can be selected", Floor: 3, Run: c12R7},
+			{ID: "C12.R9", Title: "a link number is typed digit by digit: Update takes exactly the ten digits, a digit typed outside selection mode starts a fresh number, one typed in it extends the number, and the mode is selection afterwards", Floor: 3, Run: c12R9},
 			{ID: "C12.R8", Title: "opening one link does not change what the next number opens: the hook's argv is a private copy of the configuration (same instances as C20.R2)", Floor: 2, Run: c20R2},
 		},
 	}
@@ -45,6 +46,7 @@ type appendStore struct {
 	store  *ssa.Store // nil when the result stays an SSA value
 	cell   string     // path of the address stored to
 	labels int
+	sites  []*ssa.Call // the label calls that show this append's number
 }
 
 func findAppends(P *Program, pkgs []string) []*appendStore {
@@ -149,6 +151,7 @@ func c12R1(c *Ctx) {
 			for _, a := range appends {
 				if unwrapLoad(list) == ssa.Value(a.call) {
 					a.labels++
+					a.sites = append(a.sites, call)
 					c.ok(fname+"/label", pos, fname, "label = len(result of its own append)")
 					return
 				}
@@ -173,6 +176,7 @@ func c12R1(c *Ctx) {
 				return
 			}
 			best.labels++
+			best.sites = append(best.sites, call)
 			// nothing that can append between the store and the load
 			var culprit ssa.Instruction
 			for _, mid := range instrsBetween(best.store, u) {
@@ -198,6 +202,31 @@ func c12R1(c *Ctx) {
 	for _, a := range appends {
 		c.check(a.labels == 1, FuncName(a.fn)+"/append", P.InstrPos(a.call), FuncName(a.fn),
 			"this link target has exactly one label", fmt.Sprintf("this link target is labelled %d times (a target without a number cannot be opened; two numbers for one target shift the others)", a.labels))
+		// … and on every way out of the function after the append: a target that is listed
+		// on a path where its number is never shown shifts every later number by one
+		if a.labels != 1 || len(a.sites) != 1 || a.sites[0].Parent() != a.fn || !dominatesInstr(a.call, a.sites[0]) {
+			continue
+		}
+		site := a.sites[0]
+		escape := ""
+		if site.Block() != a.call.Block() {
+			seen := map[*ssa.BasicBlock]bool{a.call.Block(): true}
+			work := append([]*ssa.BasicBlock{}, a.call.Block().Succs...)
+			for len(work) > 0 && escape == "" {
+				b := work[len(work)-1]
+				work = work[:len(work)-1]
+				if seen[b] || b == site.Block() {
+					continue
+				}
+				seen[b] = true
+				if ret, ok := b.Instrs[len(b.Instrs)-1].(*ssa.Return); ok {
+					escape = P.InstrPos(ret)
+				}
+				work = append(work, b.Succs...)
+			}
+		}
+		c.check(escape == "", FuncName(a.fn)+"/append-shown", P.InstrPos(a.call), FuncName(a.fn), "every way out after this append passes the call that shows its number",
+			"a target is added to the link list on a path that returns (at "+escape+") without its number being shown: every later link is numbered one higher than what selects it, and a number that is shown nowhere opens this target")
 	}
 	c.info("labels", nLabels)
 	c.info("appends", len(appends))
